@@ -575,9 +575,15 @@ class Evaluator(object):
             return ('bin', node['op'], l, r)
         if k == 'Unary':
             op = {'Not': '!', 'Neg': '-'}.get(node['op'], node['op'])
-            return ('un', op, self.eval(node['e'], env, guards, fn, chain))
+            inner = self.eval(node['e'], env, guards, fn, chain)
+            if op == '!' and inner is not None and inner[0] == 'un' and inner[1] == '!' and (node.get('ty') == 'bool'):
+                return inner[2]  # !!x
+            return ('un', op, inner)
         if k == 'Cast':
-            return ('cast', self.eval(node['e'], env, guards, fn, chain), node['to'])
+            inner = self.eval(node['e'], env, guards, fn, chain)
+            if widening(node['e'].get('ty'), node.get('to')):
+                return inner  # u16 -> usize and the like keep the value (as `usize::from` does); narrowing casts stay visible
+            return ('cast', inner, node['to'])
         if k == 'Try':
             inner = self.eval(node['e'], env, guards, fn, chain)
             if inner is not None and inner[0] == 'call' and inner[1] in ('Ok', 'Some') and len(inner[2]) == 1:
@@ -855,6 +861,21 @@ class Evaluator(object):
             ga = node.get('gargs') if node.get('k') == 'MethodCall' else (node.get('f') or {}).get('gargs')
             if ga:
                 npath = '<' + H.norm_path(self.tyenv.get(ga[0], ga[0])) + npath[npath.index(' as '):]
+        if ndecl in ('std::iter::Iterator::try_for_each', 'std::iter::Iterator::for_each') and len(args_nodes) == 2 and closure_node(args_nodes[1]) is not None \
+                and len(closure_node(args_nodes[1])['params']) == 1:
+            # `iter.try_for_each(|x| body)` / `iter.for_each(|x| body)`: the loop `for x in iter { body[?] }`
+            cn = closure_node(args_nodes[1])
+            itt = self.eval(args_nodes[0], env, guards, fn, chain)
+            itt, item = iter_view(itt)
+            benv = dict(env)
+            self.bind_pat(cn['params'][0], item, benv)
+            g = guards + [Guard((node['sp'], 'for', 'loop', show(itt), itt))]
+            self.emit('for', itt, node, guards, fn, chain, extra='_')
+            bt = self.eval(cn['body'], benv, g, fn, chain)
+            if ndecl.endswith('try_for_each'):
+                self.emit('try', ('try', bt), node, g, fn, chain)
+                return ('call', 'Ok', (('unit',),), ())
+            return ('unit',)
         args = tuple(self.eval(a, env, guards, fn, chain) for a in args_nodes)
         if (is_erased_call(ndecl) or is_erased_call(npath)) and len(args) == 1:
             return args[0]
@@ -1012,6 +1033,19 @@ def is_propagate_iflet(node):
     if not ty.lstrip('&').startswith('std::result::Result<') or canon.whole(node['cond']['pat'], ty) != {'Err'}:
         return False
     return _hands_error_on(node['then'], node['cond']['pat'])
+
+
+_UW = {'u8': 8, 'u16': 16, 'u32': 32, 'u64': 64, 'usize': 64, 'u128': 128}
+
+
+def widening(src, dst):
+    """an unsigned-to-unsigned cast that cannot lose bits (usize taken as 64 bits, as the rest of the analysis does)"""
+    return src in _UW and dst in _UW and _UW[src] <= _UW[dst]
+
+
+def closure_node(n):
+    n = H.peel(n) if isinstance(n, dict) else n
+    return n if isinstance(n, dict) and n.get('k') == 'Closure' else None
 
 
 def iter_view(itt):
